@@ -372,21 +372,53 @@ func c10ReadOnly(c *core.Ctx, r *core.RNG) {
 		{"MACPayload.MarshalBinary", func() []byte { b, _ := phy.MACPayload.MarshalBinary(); return b }},
 		{"FHDR.MarshalBinary", func() []byte { b, _ := phy.MACPayload.(*lorawan.MACPayload).FHDR.MarshalBinary(); return b }},
 	}
-	for _, cl := range calls {
+	// small pieces whose encoders / accessors hand out byte slices too
+	mpl := phy.MACPayload.(*lorawan.MACPayload)
+	nid := lorawan.NetID{byte(r.Intn(2)) << 5, 0, byte(r.Intn(64))}
+	calls = append(calls, []struct {
+		name string
+		f    func() []byte
+	}{
+		{"MHDR.MarshalBinary", func() []byte { b, _ := phy.MHDR.MarshalBinary(); return b }},
+		{"FCtrl.MarshalBinary", func() []byte { b, _ := mpl.FHDR.FCtrl.MarshalBinary(); return b }},
+		{"DevAddr.MarshalBinary", func() []byte { b, _ := mpl.FHDR.DevAddr.MarshalBinary(); return b }},
+		{"DevAddr.MarshalText", func() []byte { b, _ := mpl.FHDR.DevAddr.MarshalText(); return b }},
+		{"DevAddr.NwkID", func() []byte { return mpl.FHDR.DevAddr.NwkID() }},
+		{"NetID.ID", func() []byte { return nid.ID() }},
+		{"NetID.MarshalBinary", func() []byte { b, _ := nid.MarshalBinary(); return b }},
+		{"NetID.MarshalText", func() []byte { b, _ := nid.MarshalText(); return b }},
+		{"AES128Key.MarshalText", func() []byte { b, _ := k.MarshalText(); return b }},
+		{"AES128Key.MarshalBinary", func() []byte { b, _ := k.MarshalBinary(); return b }},
+		{"MIC.MarshalText", func() []byte { b, _ := phy.MIC.MarshalText(); return b }},
+	}...)
+	first := make([][]byte, len(calls))
+	for ci, cl := range calls {
 		var out []byte
 		c.Eval(1)
 		if p, msg := core.Guard(func() { out = cl.f() }); p {
 			c.Violate("C10|readonly|panic|"+cl.name, "%s", short(msg, 300))
 			continue
 		}
+		first[ci] = append([]byte{}, out...)
 		for i := range out {
 			out[i] ^= 0xA5
 		}
+		_ = append(out, 0xA5, 0xA5, 0xA5, 0xA5)
 		if now := core.Dump(phy); now != snap {
 			c.Violate("C10|readonly|"+cl.name, "frame changed by a read-only call (or through its returned bytes):\n before %s\n after  %s", short(snap, 400), short(now, 400))
 			snap = now
 		}
 		c.Shape("readonly", cl.name, up)
+	}
+	// what was handed out was the caller's to overwrite: the same calls give the same bytes again
+	for ci, cl := range calls {
+		var out []byte
+		if p, _ := core.Guard(func() { out = cl.f() }); p {
+			continue
+		}
+		if !bytes.Equal(out, first[ci]) {
+			c.Violate("C10|returned-bytes-shared|"+cl.name, "%s returned %x; after the caller overwrote the returned slices it returns %x", cl.name, first[ci], out)
+		}
 	}
 	// Set* may only change the MIC
 	before := phy
